@@ -12,8 +12,20 @@ static int vh_lookup(const char* name, unsigned long long* out) {
     }
     return found;
 }
+/* the k-th execution of ND(T, name) takes the k-th value the counterexample assigned to `name` */
+#define VH_MAXNAMES 256
+static const char* vh_seen[VH_MAXNAMES]; static int vh_seen_n[VH_MAXNAMES]; static int vh_nseen = 0;
+static int vh_occurrence(const char* name) {
+    int i;
+    for (i = 0; i < vh_nseen; i++) if (strcmp(vh_seen[i], name) == 0) return vh_seen_n[i]++;
+    if (vh_nseen < VH_MAXNAMES) { vh_seen[vh_nseen] = name; vh_seen_n[vh_nseen] = 1; vh_nseen++; }
+    return 0;
+}
 void vh_nd(void* p, size_t n, const char* name) {
     unsigned long long bits = 0;
+    char buf[256];
+    snprintf(buf, sizeof buf, "%s#%d", name, vh_occurrence(name));
+    if (vh_lookup(buf, &bits)) { memset(p, 0, n); memcpy(p, &bits, n < sizeof(bits) ? n : sizeof(bits)); return; }
     if (!vh_lookup(name, &bits)) { printf("NATIVE-NOTE no counterexample value for %s, using 0\n", name); }
     memset(p, 0, n);
     memcpy(p, &bits, n < sizeof(bits) ? n : sizeof(bits));
